@@ -58,6 +58,15 @@ def fbImageMap (fb : Fb) : String :=
     | some c => some s!"{x},{y},{c}"
     | none => none)))
 
+/-- the part of the image from (1,1) on, drawn in place (`sub=` of fb.hist) -/
+def fbSubImageMap (fb : Fb) : String :=
+  let ys := irange 1 fb.height
+  let xs := irange 1 fb.width
+  joinOr ";" (ys.flatMap (fun y => xs.filterMap (fun x =>
+    match fb.pixel ⟨x, y⟩ with
+    | some c => some s!"{x},{y},{c}"
+    | none => none)))
+
 def handleFb (stream : String) (t : Toks) : Option String :=
   match stream with
   | "fb.hist" =>
@@ -67,7 +76,7 @@ def handleFb (stream : String) (t : Toks) : Option String :=
     let (h, t) := t.nat
     let (extra, t) := t.nat
     let fb := t.foldl (fun fb tok => fbOp fb (parseIntList tok)) (fbInit bits (orderOf o) w h extra)
-    some s!"d={fmtNats fb.data} p={fbGrid fb} img={fbImageMap fb}"
+    some s!"d={fmtNats fb.data} p={fbGrid fb} img={fbImageMap fb} sub={fbSubImageMap fb}"
   | "fb.draw" =>
     let (bits, t) := t.nat
     let (o, t) := t.nat
